@@ -35,8 +35,34 @@ pub struct VClock {
     pub advance_all: i64,
 }
 
+thread_local! {
+    /// called with the index of every clock read made under the virtual clock, before the read returns (used to make something
+    /// happen - e.g. a publication by the daemon - exactly between two steps of a client call)
+    pub static ON_CLOCK_READ: RefCell<Option<Box<dyn FnMut(usize)>>> = RefCell::new(None);
+}
+
+pub fn set_on_clock_read(f: Option<Box<dyn FnMut(usize)>>) {
+    ON_CLOCK_READ.with(|o| *o.borrow_mut() = f);
+}
+
 #[no_mangle]
 pub unsafe extern "C" fn clock_gettime(clk: libc::clockid_t, tp: *mut libc::timespec) -> libc::c_int {
+    let idx = VCLOCK.with(|v| {
+        let v = v.borrow();
+        if v.active { Some(v.reads.len()) } else { None }
+    });
+    if let Some(i) = idx {
+        let taken = ON_CLOCK_READ.with(|o| o.borrow_mut().take());
+        if let Some(mut f) = taken {
+            f(i);
+            ON_CLOCK_READ.with(|o| {
+                let mut slot = o.borrow_mut();
+                if slot.is_none() {
+                    *slot = Some(f);
+                }
+            });
+        }
+    }
     let handled = VCLOCK.with(|v| {
         let mut v = v.borrow_mut();
         if !v.active {
@@ -183,6 +209,10 @@ fn threads_child(a: &[String]) -> ! {
         let probe = std::thread::Builder::new().spawn(|| {});
         println!("probe_spawn_refused={}", probe.is_err());
     }
+    // optional 7th..9th values: <stall site> <nth visit> <ms>: that thread is held (not killed) at that point for that long
+    if n(6) != 0 {
+        clock_bound_d::verif::fault::set_stall(n(6), n(7), n(8));
+    }
     let t0 = std::time::Instant::now();
     clock_bound_d::thread_manager::run(1000, None);
     println!("returned_ms={} isolated={}", t0.elapsed().as_millis(), isolated);
@@ -302,6 +332,93 @@ fn openchild(a: &[String]) -> ! {
     };
     println!("{} open_ms={}", res, open_ms);
     std::process::exit(0);
+}
+
+/// child mode: `replay --nowchild <path> <rust|c>`: open the segment and ask for the time once, through the Rust client or the C library
+fn nowchild(a: &[String]) -> ! {
+    let path = a.get(0).cloned().unwrap_or_default();
+    let which = a.get(1).cloned().unwrap_or_default();
+    let t0 = std::time::Instant::now();
+    let res = if which == "c" {
+        unsafe {
+            let cpath = std::ffi::CString::new(path).unwrap();
+            let mut err = ffi::clockbound_err::default();
+            let ctx = ffi::clockbound_open(cpath.as_ptr(), &mut err);
+            if ctx.is_null() {
+                "open_err".to_string()
+            } else {
+                let mut res0: std::mem::MaybeUninit<[u8; 64]> = std::mem::MaybeUninit::zeroed();
+                let e = ffi::clockbound_now(ctx, res0.as_mut_ptr() as *mut ffi::clockbound_now_result);
+                if e.is_null() { "now_ok".to_string() } else { format!("now_err:kind={}", std::ptr::read(&(*e).kind) as i32) }
+            }
+        }
+    } else {
+        match clock_bound_client::ClockBoundClient::new_with_path(&path) {
+            Err(e) => format!("open_err:kind={}", e.kind as i32 + 1),
+            Ok(mut c) => match c.now() {
+                Ok(_) => "now_ok".to_string(),
+                Err(e) => format!("now_err:kind={}", e.kind as i32 + 1),
+            },
+        }
+    };
+    println!("{} call_ms={}", res, t0.elapsed().as_millis());
+    std::process::exit(0);
+}
+
+/// nowahead <rust|c> [watchdog_ms]: the segment holds a complete record whose as_of lies one hour ahead of the caller's monotonic clock
+/// (a file that outlived a reboot, a daemon in another time namespace) and there is no daemon: one call for the time, in a child
+/// process, must return (with the causality error)
+fn cmd_nowahead(a: &[&str]) -> String {
+    let which = a.get(0).copied().unwrap_or("rust");
+    let wd: u64 = a.get(1).and_then(|x| x.parse().ok()).unwrap_or(3000);
+    let path = seg::tmp_path("na");
+    let mut ts = libc::timespec { tv_sec: 0, tv_nsec: 0 };
+    unsafe { libc::syscall(libc::SYS_clock_gettime, libc::CLOCK_MONOTONIC, &mut ts) };
+    let mut bytes = seg::header_bytes(72, 1, 2);
+    let a_s = ts.tv_sec + 3600;
+    bytes.extend_from_slice(&a_s.to_ne_bytes());
+    bytes.extend_from_slice(&0i64.to_ne_bytes());
+    bytes.extend_from_slice(&(a_s + 1000).to_ne_bytes());
+    bytes.extend_from_slice(&0i64.to_ne_bytes());
+    bytes.extend_from_slice(&5000i64.to_ne_bytes());
+    bytes.extend_from_slice(&1000u32.to_ne_bytes());
+    bytes.extend_from_slice(&0u32.to_ne_bytes());
+    bytes.extend_from_slice(&1i32.to_ne_bytes());
+    bytes.extend_from_slice(&0u32.to_ne_bytes());
+    if std::fs::write(&path, &bytes).is_err() {
+        return "io".into();
+    }
+    let exe = match std::env::current_exe() {
+        Ok(e) => e,
+        Err(_) => return "noexe".into(),
+    };
+    let mut child = match std::process::Command::new(exe).arg("--nowchild").arg(&path).arg(which).stdin(std::process::Stdio::null()).stdout(std::process::Stdio::piped()).stderr(std::process::Stdio::null()).spawn() {
+        Ok(c) => c,
+        Err(_) => return "nospawn".into(),
+    };
+    let t0 = std::time::Instant::now();
+    let res = loop {
+        match child.try_wait() {
+            Ok(Some(st)) => {
+                let mut out = String::new();
+                if let Some(mut o) = child.stdout.take() {
+                    use std::io::Read;
+                    let _ = o.read_to_string(&mut out);
+                }
+                break format!("ok returned code={} wall_ms={} {}", st.code().unwrap_or(-1), t0.elapsed().as_millis(), out.trim());
+            }
+            Ok(None) => {}
+            Err(_) => break "waiterr".into(),
+        }
+        if t0.elapsed().as_millis() as u64 > wd {
+            let _ = child.kill();
+            let _ = child.wait();
+            break format!("ok hung wall_ms={} (the call had not returned; child killed)", t0.elapsed().as_millis());
+        }
+        std::thread::sleep(std::time::Duration::from_millis(10));
+    };
+    let _ = std::fs::remove_file(&path);
+    res
 }
 
 /// openlocked <flock|posix|ofd|none> [watchdog_ms]: another process (this one, standing for a daemon stopped - not dead - while it
@@ -564,6 +681,9 @@ fn cmd_threads(a: &[&str]) -> String {
         .arg(a.get(4).copied().unwrap_or("0"))
         .arg(a.get(5).copied().unwrap_or("0"))
         .arg(a.get(6).copied().unwrap_or("0"))
+        .arg(a.get(7).copied().unwrap_or("0"))
+        .arg(a.get(8).copied().unwrap_or("0"))
+        .arg(a.get(9).copied().unwrap_or("0"))
         .stdin(std::process::Stdio::null())
         .stdout(std::process::Stdio::piped())
         .stderr(std::process::Stdio::null())
@@ -610,6 +730,9 @@ fn main() {
     if argv.get(1).map(|s| s.as_str()) == Some("--gettracking") {
         gettracking_child(&argv[2..]);
     }
+    if argv.get(1).map(|s| s.as_str()) == Some("--nowchild") {
+        nowchild(&argv[2..]);
+    }
     if argv.get(1).map(|s| s.as_str()) == Some("--openchild") {
         openchild(&argv[2..]);
     }
@@ -645,6 +768,7 @@ fn main() {
             "rewrite" => abi::cmd_rewrite(&rest),
             "abi" => abi::cmd_abi(&rest),
             "abi2" => abi::cmd_abi2(&rest),
+            "abi3" => abi::cmd_abi3(&rest),
             "recreate" => seg::cmd_recreate(&rest),
             "open_race" => seg::cmd_open_race(&rest),
             "snapshot_stall" => seg::cmd_snapshot_stall(&rest),
@@ -654,6 +778,7 @@ fn main() {
             "e2e" => daemon::cmd_e2e(&rest),
             "threads" => cmd_threads(&rest),
             "openlocked" => cmd_openlocked(&rest),
+            "nowahead" => cmd_nowahead(&rest),
             "gettracking" => cmd_gettracking(&rest),
             "unmapcheck" => cmd_unmapcheck(&rest),
             "wipecrash" => cmd_wipecrash(&rest),
